@@ -1077,4 +1077,73 @@ the vector `[-2, -1, 0]` solves `A x = [2, 1, 0]` (a negative charge), and it in
 example : mulL 0 (fdNonuniform [(0:ℝ), 1, 2]) [-2, -1, 0] = [2, 1, 0] := by
   simp [fdNonuniform, fdInterior, fdRow, mulL]; norm_num
 
+/-! ## the over-relaxed e-beam variant -/
+
+/-- the extrapolation step keeps the length and the wall value: `φ₋₁ + μ (φ − φ₋₁)` is 0 at the wall when
+`φ` and `φ₋₁` are — whatever `μ` is (also for a vanishing denominator) -/
+theorem sorExtrapolate_wall (phi m1 m2 : List ℝ) (n : ℕ) (hn : 0 < n) (h1 : phi.length = n) (h2 : m1.length = n)
+    (hw : phi.getLast? = some 0) (hw1 : m1.getLast? = some 0) :
+    (sorExtrapolate phi m1 m2).length = n ∧ (sorExtrapolate phi m1 m2).getLast? = some 0 := by
+  unfold sorExtrapolate
+  have hrk : (List.zipWith (· - ·) phi m1).getLast? = some (0 - 0) :=
+    getLast?_zipWith_sub phi m1 0 0 (by omega) hw hw1
+  refine ⟨by simp [h1, h2], ?_⟩
+  have := getLast?_zipWith (fun a b : ℝ => a + (lit 1 - dotL (List.zipWith (· - ·) phi m1)
+      (List.zipWith (· - ·) (List.zipWith (· - ·) phi m1) (List.zipWith (· - ·) m1 m2)) /
+      dotL (List.zipWith (· - ·) (List.zipWith (· - ·) phi m1) (List.zipWith (· - ·) m1 m2))
+        (List.zipWith (· - ·) (List.zipWith (· - ·) phi m1) (List.zipWith (· - ·) m1 m2))) * b)
+    m1 (List.zipWith (· - ·) phi m1) 0 (0 - 0) (by simp [h1, h2]) hw1 hrk
+  simpa using this
+
+/-- **the over-relaxed iteration returns a potential that is exactly 0 at the wall** — after any number of passes,
+through the convergence exit or the pass budget, including the extrapolated iterates -/
+theorem sor_loop_wall_zero (I : BPIn ℝ) (f0n u : ℝ) (n : ℕ) (hn : 0 < n) (hr : I.r.length = n) (hl : I.ldu.length = n)
+    (hc : I.ldu.getLast? = some (0, 1, u)) (hv : I.variant = .ebeam)
+    (hbeam : I.cden.length = n ∧ I.cden.getLast? = some 0) :
+    ∀ (fuel k : ℕ) (phi m1 m2 : List ℝ) (last : Option (StepOut ℝ)), phi.length = n → m1.length = n →
+      m1.getLast? = some 0 →
+      (sorLoop I f0n (fuel + 1) k phi m1 m2 last).1.getLast? = some 0 := by
+  have hstat : I.variant ≠ .ebeam → I.b0.length = n ∧ I.b0.getLast? = some 0 := fun h => absurd hv h
+  intro fuel
+  induction fuel with
+  | zero =>
+    intro k phi m1 m2 last hp hm1 hw1
+    have hz := step_wall_zero I phi u (by omega) (by omega) (by omega) hc (by rw [hp]; exact hstat) (by rw [hp]; exact fun _ => hbeam)
+    have hlen := step_phi_length I phi (by omega) (by omega) (by omega) (by rw [hp]; exact hstat) (by rw [hp]; exact fun _ => hbeam)
+    simp only [sorLoop]
+    split_ifs
+    · exact (sorExtrapolate_wall _ m1 m2 n hn (by omega) hm1 hz hw1).2
+    · exact hz
+    · exact hz
+  | succ f ih =>
+    intro k phi m1 m2 last hp hm1 hw1
+    have hz := step_wall_zero I phi u (by omega) (by omega) (by omega) hc (by rw [hp]; exact hstat) (by rw [hp]; exact fun _ => hbeam)
+    have hlen := step_phi_length I phi (by omega) (by omega) (by omega) (by rw [hp]; exact hstat) (by rw [hp]; exact fun _ => hbeam)
+    rw [sorLoop]
+    split_ifs
+    · obtain ⟨e1, e2⟩ := sorExtrapolate_wall (step I phi).phi m1 m2 n hn (by omega) hm1 hz hw1
+      exact ih (k + 1) _ _ m1 (some (step I phi)) e1 e1 e2
+    · exact hz
+    · exact ih (k + 1) _ _ m1 (some (step I phi)) (by omega) (by omega) hz
+
+/-- every Newton update inside the over-relaxed iteration is the same `step` as in the plain iteration, so the
+Newton identity (`self_consistent_partial`), the line-density normalisation (`line_density_ebeam`) and the shape
+bounds (`shape_bounds`) apply to what it returns: the returned `nax`, `shape` are those of a `step` -/
+theorem sor_exit_is_step (I : BPIn ℝ) (f0n : ℝ) : ∀ (fuel k : ℕ) (phi m1 m2 : List ℝ) (last : Option (StepOut ℝ)) (o : StepOut ℝ),
+    (sorLoop I f0n fuel k phi m1 m2 last).2.1 = some o → 0 < fuel → ∃ phiPrev, o = step I phiPrev := by
+  intro fuel
+  induction fuel with
+  | zero => intro k phi m1 m2 last o _ h; exact absurd h (by simp)
+  | succ f ih =>
+    intro k phi m1 m2 last o ho _
+    rw [sorLoop] at ho
+    split_ifs at ho
+    · cases f with
+      | zero => simp only [sorLoop, Option.some.injEq] at ho; exact ⟨phi, ho.symm⟩
+      | succ f' => exact ih _ _ _ _ _ o ho (by omega)
+    · simp only [Option.some.injEq] at ho; exact ⟨phi, ho.symm⟩
+    · cases f with
+      | zero => simp only [sorLoop, Option.some.injEq] at ho; exact ⟨phi, ho.symm⟩
+      | succ f' => exact ih _ _ _ _ _ o ho (by omega)
+
 end C13
